@@ -124,7 +124,7 @@ def run_many(jobs, parallel=None):
 
 
 def write_json(obj, name, subdir='traces'):
-    path = os.path.join(config.workdir(subdir), name)
+    path = os.path.join(config.workdir(subdir), '%d-%s' % (os.getpid(), name))
     with open(path, 'w') as handle:
         json.dump(obj, handle, separators=(',', ':'))
     return path
